@@ -186,6 +186,8 @@ class _G:
         r = self.rng.random()
         if r < 0.3:
             return "No longer supported"
+        if r < 0.42:
+            return ""          # deprecated with an empty reason is still deprecated
         return adversarial_text(self.rng) if self.adv else "use other"
 
     # ---- type references
